@@ -6,6 +6,11 @@ META = {
         'outside': ['bytes that are not IUPAC codes in RC_IUPAC and base_to_prob (the property does not say what they map to)'],
         'assumptions': ['Kani/CBMC model of rustc MIR semantics', 'independent 4-bit-set specification of the IUPAC alphabet written in the harness'],
     },
+    'C01': {
+        'bounds': 'window enumeration: k in {5,7} (quick) + 9 and u128 (thorough), records <= k+3 symbols over {ACGTNacgtn}; packing/rolling: all odd k; accumulation: <= 4 observations; tables <= 2x3',
+        'outside': ['parsing of FASTA bytes (wrapping, gzip)', 'IUPAC letters other than N in the input', 'the text printed by ska nk (Display/Debug, decode_kmer)', 'CLI parsing', 'k-dependence of window control flow beyond the k listed (argued, not solved: k only enters idx+k comparisons)'],
+        'assumptions': ['Kani/CBMC model of rustc MIR semantics', 'library models in /verif/models meet the documented contracts of hashbrown/ndarray/needletail'],
+    },
     'C16': {
         'bounds': 'u64: all odd k in 5..=31; u128: all odd k in 5..=63; windows of k+2 bases for rolling; see per-obligation bounds',
         'outside': ['String-producing decoders decode_kmer / skalo_decode_kmer unless listed as decided', 'hash_val (ahash)'],
